@@ -493,12 +493,74 @@ def _same_on_integers(got, want, U, bound=2):
     return True
 
 
+def _rotate_head(ctx, fn, loc):
+    """the guards at the top of rotate(), by evaluation: the function is run on concrete index sets until it asks for the Cartesian images of the indices; what it
+    asks them for (or that it refuses first) is the verdict"""
+    R = sp.Rational
+
+    class _Stop(Exception):
+        pass
+
+    def head(uvws, hexagonal):
+        asked, conv = [], []
+
+        class _Bx(PyStub):
+            volume = sp.Integer(1)
+
+            def ishexagonal(self, *a, **k):
+                return hexagonal
+
+        class _Mil(PyStub):
+            def vector4to3(self, u):
+                conv.append(('vector4to3', np.asarray(u, dtype=object)))
+                u = np.asarray(u, dtype=object)
+                out = np.empty(u.shape[:-1] + (3,), dtype=object)
+                out[..., 0], out[..., 1], out[..., 2] = 2 * u[..., 0] + u[..., 1], 2 * u[..., 1] + u[..., 0], u[..., 3]
+                return out
+
+            def plane4to3(self, u):
+                conv.append(('plane4to3', np.asarray(u, dtype=object)))
+                return np.asarray(u, dtype=object)[..., [0, 1, 3]]
+
+            def vector_crystal_to_cartesian(self, u, box=None):
+                asked.append(np.asarray(u, dtype=object))
+                raise WouldRaise('the head is over: the Cartesian images are asked for')
+        selfobj = SymObj(None, {'natoms': sp.Integer(2), 'box': _Bx()}, 'self')
+        ev = SymEval(module_aliases(ctx.mod(SYS)))
+        ev.globals = {'miller': _Mil()}
+        try:
+            paths = ev.run_fn(fn, [selfobj, uvws], {})
+        except WouldRaise:
+            if asked:
+                return 'accepted', asked[0], conv
+            return 'refused', None, conv
+        except Opaque as e:
+            raise AnalysisError('rotate(): head on %s: %s' % (np.shape(uvws), e))
+        if all(q.done == 'raise' for q in paths):
+            return 'refused', None, conv
+        return 'no conversion asked for', None, conv
+    M = [[1, -1, 0], [1, 1, 0], [0, 0, 2]]
+    for tag, uv, hexa, want in (('whole-number indices given as numbers with a fraction part of zero', arr(M), False, arr(M)),
+                                ('the same as a nested list', [list(r) for r in M], False, arr(M)),
+                                ('indices a rounding error away from whole numbers', arr([[1 + R(1, 10 ** 12), -1, 0], [1, 1 - R(1, 10 ** 13), 0], [0, 0, 2]]), False, arr(M)),
+                                ('an index of one half', arr([[1, R(1, 2), 0], [1, 1, 0], [0, 0, 2]]), False, None),
+                                ('two vectors only', arr(M[:2]), False, None),
+                                ('four-index vectors in a hexagonal cell', arr([[2, -1, -1, 0], [-1, 2, -1, 0], [0, 0, 0, 1]]), True, arr([[3, 0, 0], [0, 3, 0], [0, 0, 1]])),
+                                ('four-index vectors in a cell that is not hexagonal', arr([[2, -1, -1, 0], [-1, 2, -1, 0], [0, 0, 0, 1]]), False, None)):
+        st, got, conv = head(uv, hexa)
+        if want is None:
+            ctx.ob('ROTATE', loc, '%s: refused' % tag, st == 'refused', 'the call is %s' % st, node=fn, key='head ' + tag[:30])
+        else:
+            ok = st == 'accepted' and np.shape(got) == (3, 3) and all(isinstance(sp.nsimplify(x), sp.Integer) or sp.nsimplify(x) == int(sp.nsimplify(x)) for x in np.ravel(got)) \
+                and equal(np.asarray(got, dtype=object), want, deep=False) and (len(np.shape(uv)) != 2 or np.shape(uv)[1] != 4 or [c[0] for c in conv] == ['vector4to3'])
+            ctx.ob('ROTATE', loc, '%s: accepted, and the indices whose Cartesian images are taken are the whole numbers (four-index lattice vectors converted as vectors: U = 2u + v, V = 2v + u)' % tag, bool(ok),
+                   'the call is %s, images asked for %s, conversions %s' % (st, None if got is None else got.tolist(), [c[0] for c in conv]), node=fn, key='head ' + tag[:30])
+
+
 def rotate(ctx):
     fn = ctx.fn(SYS, 'System.rotate')
     loc = SYS + '::System.rotate'
-    t = norm(fn).replace(' ', '')
-    ok = "int_uvws=np.asarray(np.rint(uvws),dtype='int64')" in t and 'ifnp.allclose(uvws,int_uvws):uvws=int_uvws' in t and "else:raiseValueError('Rotationuvwsmustbeintegervalues')" in t
-    ctx.ob('ROTATE', loc, 'non-integer indices are refused', ok, node=fn)
+    _rotate_head(ctx, fn, loc)
     z = [s for s in ast.walk(fn) if isinstance(s, ast.If) and norm(s.test).replace(' ', '') == 'newnatoms==0' and any(isinstance(x, ast.Raise) for x in s.body)]
     ctx.ob('ROTATE', loc, 'parallel or coplanar vectors (zero volume) are refused', len(z) == 1, node=fn)
     nn = assigns_to(fn, 'newnatoms')
@@ -668,10 +730,6 @@ def rotate(ctx):
     ret = [s for s in ast.walk(fn) if isinstance(s, ast.Return)]
     ctx.ob('ROTATE', loc, 'the result is normalised (LAMMPS-compatible, atoms inside) and the transformation handed back on request',
            len(ret) == 1 and norm(ret[0].value).replace(' ', '') == 'newsystem.normalize(return_transform=return_transform)', node=fn)
-    # hexagonal indices
-    hx = [s for s in ast.walk(fn) if isinstance(s, ast.If) and norm(s.test).replace(' ', '') == 'uvws.shape==(3,4)']
-    ok = len(hx) == 1 and 'miller.vector4to3(uvws)' in norm(hx[0]) and 'self.box.ishexagonal()' in norm(hx[0]) and any(isinstance(x, ast.Raise) for x in ast.walk(hx[0]))
-    ctx.ob('ROTATE', loc, 'four-index input is converted for hexagonal cells and refused otherwise', ok, node=fn)
 
 
 def origin_anchor(ctx):
